@@ -332,16 +332,21 @@ def run_check(prop, tier):
     reports, runs, hash_seeds = fan_out(prop, seed, tier, cfg, lockstep or bool(os.environ.get("VERIF_PER_RUN")),
                                         workers)
 
+    harness_rc = EXIT_OK
     failed = [r for r in reports if r.get("failed")]
     if failed:
         for r in failed[:3]:
             print(f"HARNESS-ERROR: worker job {r['job'][:5]} rc={r['rc']}\n{r['stderr']}", flush=True)
-        return EXIT_HARNESS
+        harness_rc = EXIT_HARNESS
+        # what the other workers found is still processed below: a confirmed violation outranks this
+        reports = [r for r in reports if not r.get("failed")]
+        if not reports:
+            return EXIT_HARNESS
     herrs = [e for r in reports for e in r["harness_errors"]]
     if herrs:
         for e in herrs[:2]:
             print(f"HARNESS-ERROR: run index {e['index']}:\n{e['error']}", flush=True)
-        return EXIT_HARNESS
+        harness_rc = EXIT_HARNESS
 
     known_file = load_known_file()
     listed = [f for f in known_file.get("findings", []) if f["property"] == prop]
@@ -404,7 +409,7 @@ def run_check(prop, tier):
                                           "hash_seeds": [h1, h2]})
 
         # --- minimise and report ------------------------------------------
-        rc = EXIT_OK
+        rc = harness_rc
         reported = []
         seen = set()
         todo = []
